@@ -104,7 +104,7 @@ def unify(t_a, t_b):
     if t_a == t_b:
         return t_a
 
-    if t_a.__name__ == "list" and t_b.__name__ == "list":
+    if getattr(t_a, "__name__", None) == "list" and getattr(t_b, "__name__", None) == "list":
         if hasattr(t_a, "__args__") and len(t_a.__args__) == 1:
             if hasattr(t_b, "__args__"):
                 if len(t_b.__args__) == 1:
